@@ -30,7 +30,7 @@ m = dict(
     version=1,
     setup_cmd="./setup.sh",
     hooks=dict(guard="verif", enable="go test -tags verif (files //go:build verif; harness module /verif/harness with replace istio.io/istio => /repo)",
-               baseline_off_cmd="cd /repo && go test -mod=mod -vet=off -count=1 -timeout 25m ./...",
+               baseline_off_cmd="cd /repo && if command -v go1.26.8 >/dev/null; then GOTOOLCHAIN=local go1.26.8 test -mod=mod -vet=off -count=1 -timeout 25m ./...; else go test -mod=mod -vet=off -count=1 -timeout 25m ./...; fi",
                source_commits=[h for h in hooks if h], add_only=True),
     engines=[dict(name="coq-model+go-correspondence", path="/verif/check",
                   serves_properties=[c["property_id"] for c in checks],
